@@ -16,7 +16,7 @@ import copy
 import numpy as np
 
 from .. import zoo
-from ..kernel import Violation, call, close, is_exc, short
+from ..kernel import Held, Violation, call, close, is_exc, short
 from .c19 import Table, _no_tg
 
 PROP = 'C03'
@@ -93,6 +93,7 @@ def run(scenario, world):
         rtol=1e-3, atol=1e-6)
     tol_fd = 1e-5 if exact else 5e-2
     points = scenario['points']
+    held = Held()
     fixed = {}        # handle -> {index: value} over the original list
     orig_n = {}
     triples = []
@@ -175,6 +176,10 @@ def run(scenario, world):
                 p, s = plain(), sens()
             else:
                 s, p = sens(), plain()
+            # gradients handed out earlier still hold what they held
+            held.verify(step)
+            if not is_exc(s):
+                held.keep('%s.evaluateS1 (step %d)' % (kind, step), s)
             if fault is not None:
                 world.probe('check_under_solver_fault')
             if is_exc(p) and p.type == 'NotImplementedError':
